@@ -1,5 +1,6 @@
 import Driver.Prog
 import UrcuVerif.Wfcq.Model
+import UrcuVerif.Wfq.Model
 import UrcuVerif.Gen.Constants
 /-!
 Trace checker for `cds_wfcq` (include/urcu/static/wfcqueue.h + src/wfcqueue.c wrappers) and the
@@ -19,6 +20,8 @@ open Wfcq
 
 structure G where
   s : State := init
+  w : Wfq.State := Wfq.init            -- the legacy cds_wfq model (traces with `CFG comp=wfq`)
+  wfq : Bool := false
   legacy : Bool := true
   attempts : Nat := Gen.WFCQ_ADAPT_ATTEMPTS
   opSteps : List (Nat × Nat) := []       -- per thread: model steps (= shimmed primitives) since the last SOLO_BEGIN
@@ -390,12 +393,151 @@ partial def thread (t : Nat) : M Unit := do
 
 def cfgLine (g : G) (ws : List String) : G :=
   ws.foldl (fun g w =>
-    if w == "legacy_mb=0" then { g with legacy := false }
+    if w == "comp=wfq" then { g with wfq := true }
+    else if w == "legacy_mb=0" then { g with legacy := false }
     else if w == "legacy_mb=1" then { g with legacy := true }
     else if w.startsWith "attempts=" then { g with attempts := (w.drop 9).toString.toNat?.getD g.attempts }
     else g) g
 
 end WfcqDrv
+
+-- ------------------------------------------------------------------------------------------
+-- include/urcu/static/wfqueue.h (legacy cds_wfq), function by function, on `UrcuVerif.Wfq.step`
+-- ------------------------------------------------------------------------------------------
+namespace WfqDrv
+open WfcqDrv
+
+abbrev M := P G
+
+def drainW (t : Nat) : Nat → Wfq.State → Wfq.State
+  | 0, s => s
+  | n+1, s => match Wfq.step s (.flush t) with
+    | some s' => drainW t n s'
+    | none => s
+
+def lab (l : Wfq.Label) : M Unit := P.act fun g =>
+  match Wfq.step g.w l with
+  | some s' => .ok { g with w := drainW l.tid 8 s' }
+  | none => .error s!"wfq model step {repr l} not enabled (pc={repr (g.w.pc l.tid)})"
+
+/-- "n1" (the dummy) ↦ 1, "n7" ↦ 7 -/
+def addr (loc : String) : Option Nat :=
+  if loc.startsWith "n" then (loc.drop 1).toString.toNat?.bind fun n => if n == 1 || n ≥ 3 then some n else none
+  else none
+
+def tok (a : Nat) : String := if a == 0 then "0" else s!"&n{a}"
+
+def ptr (t : String) : M Nat :=
+  if t == "0" then pure 0
+  else if t.startsWith "&" then match addr (t.drop 1).toString with
+    | some a => pure a
+    | none => P.fail s!"bad pointer value {t}"
+  else P.fail s!"bad pointer value {t}"
+
+def legacyMb (t : Nat) : M Unit := do
+  let g ← P.get
+  if g.legacy then do
+    P.expect "MB" []
+    lab (.fence t)
+
+/-- `_cds_wfq_enqueue(q, node)`; `l` = the model label of its xchg (enqueue of a node / dummy re-enqueue) -/
+def enqueue (t n : Nat) (l : Wfq.Label) : M Unit := do
+  legacyMb t
+  let r ← P.evAt "XCHG" "qt"                 -- old_tail = uatomic_xchg_mo(&q->tail, &node->next, CMM_SEQ_CST)
+  let g ← P.get
+  let old ← match r with
+    | [nv, o, mo] =>
+      if nv != tok n then P.fail s!"XCHG qt: new value {nv}, expected {tok n}"
+      else if !moOk mo 5 then P.fail "XCHG qt: weaker than seq_cst"
+      else ptr o
+    | _ => P.fail "bad XCHG"
+  if old != g.w.tail then P.fail s!"XCHG qt returned {tok old}, model has {tok g.w.tail}"
+  lab l
+  let r ← P.evAt "ST" s!"n{old}"             -- uatomic_store(old_tail, node, CMM_RELEASE)
+  match r with
+  | [x, mo] =>
+    if x != tok n then P.fail s!"ST n{old}: stores {x}, C text transliteration expects {tok n}"
+    if !moOk mo 3 then P.fail s!"ST n{old}: memory order {mo} weaker than release"
+  | _ => P.fail "bad ST"
+  lab (.stIssue t)
+
+/-- `___cds_wfq_node_sync_next(node)` -/
+partial def syncNext (t nd : Nat) (attempt : Nat := 0) : M Nat := do
+  let r ← P.evAt "LD" s!"n{nd}"              -- while ((next = uatomic_load(&node->next, CMM_CONSUME)) == NULL)
+  let v ← match r with
+    | [v, mo] => if !moOk mo 1 then P.fail "LD next: weaker than consume" else ptr v
+    | _ => P.fail "bad LD"
+  let g ← P.get
+  if Wfq.rd g.w t nd != v then P.fail s!"LD n{nd} read {tok v}, model memory has {tok (Wfq.rd g.w t nd)}"
+  lab (.sync t)
+  if v != 0 then pure v
+  else do
+    let g ← P.get
+    if attempt + 1 ≥ g.attempts then do
+      P.expect "POLL" []; cover "wfq_sync_poll"
+      syncNext t nd 0
+    else do
+      P.expect "RELAX" []; cover "wfq_sync_relax"
+      syncNext t nd (attempt + 1)
+
+/-- `___cds_wfq_dequeue_blocking(q)`: `none` = NULL -/
+partial def dequeue (t : Nat) : M (Option Nat) := do
+  let g ← P.get
+  let hd := g.w.head
+  -- if (q->head == &q->dummy && uatomic_load(&q->tail, CMM_CONSUME) == &q->dummy.next) return NULL;
+  let empty ← if hd == Wfq.D then do
+      let r ← P.evAt "LD" "qt"
+      match r with
+      | [v, mo] =>
+        let v ← ptr v
+        if !moOk mo 1 then P.fail "LD qt: weaker than consume"
+        let g ← P.get
+        if v != g.w.tail then P.fail s!"LD qt read {tok v}, model has {tok g.w.tail}"
+        pure (v == Wfq.D)
+      | _ => P.fail "bad LD"
+    else pure false
+  lab (.q1 t)
+  if empty then do cover "wfq_deq_empty"; pure none
+  else do
+    let nx ← syncNext t hd                   -- node = q->head; next = ___cds_wfq_node_sync_next(node); q->head = next
+    let _ := nx
+    if hd == Wfq.D then do
+      cover "wfq_requeue_dummy"
+      enqueue t Wfq.D (.redo t)              -- _cds_wfq_node_init(node); _cds_wfq_enqueue(q, node)
+      dequeue t                              -- return ___cds_wfq_dequeue_blocking(q)
+    else do cover "wfq_deq_node"; pure (some hd)
+
+def modelDone (t : Nat) (r : Wfq.Res) : M Unit := do
+  let g ← P.get
+  if g.w.pc t != .done r then P.fail s!"C code returns {repr r}, wfq model is at {repr (g.w.pc t)}"
+  lab (.ret t)
+
+partial def thread (t : Nat) : M Unit := do
+  let e ← P.ev "CALL / ROLE / SPAWN" fun e => some e
+  match e.op, e.args with
+  | "SPAWN", _ => thread t
+  | "THREAD_EXIT", _ => pure ()
+  | "ROLE", ["acquire"] => do lab (.acquire t); thread t
+  | "ROLE", ["release"] => do lab (.release t); thread t
+  | "CALL", ["wfq_enq", n] => do
+    let n ← match addr n with | some n => pure n | none => P.fail "bad node"
+    enqueue t n (.enqXchg t n)
+    modelDone t .unit
+    retLine "wfq_enq" []
+    cover "wfq_enq"
+    thread t
+  | "CALL", ["wfq_deq", lk] => do
+    let lk ← flag lk "lk="
+    if lk then do P.expect "LOCK" ["qlock"]; lab (.acquire t)
+    lab (.callDeq t)
+    let r ← dequeue t
+    modelDone t (match r with | none => .null | some n => .node n)
+    if lk then do P.expect "UNLOCK" ["qlock"]; lab (.release t)
+    retLine "wfq_deq" [match r with | none => "0" | some n => tok n]
+    thread t
+  | _, _ => P.fail s!"unexpected {e.show}"
+
+end WfqDrv
 
 open WfcqDrv in
 def main : IO UInt32 := do
@@ -403,6 +545,6 @@ def main : IO UInt32 := do
     match ws with
     | "CFG" :: rest => .ok { r with g := cfgLine r.g rest }
     | _ => match parseEv ws with
-      | some e => feed (fun t _ => (thread t).run) r e
+      | some e => feed (fun t g => if g.wfq then (WfqDrv.thread t).run else (thread t).run) r e
       | none => .error "unparsable line"
   loop (← IO.getStdin) f (fun r => showCov r.g.cov) ({ g := {} } : Run G) 0
